@@ -113,8 +113,11 @@ ANCHORS = {
               "Cell.get_segment_group", "Cell.setup_nml_cell"],
     },
     "C16": {
-        NML: ["Cell.create_unbranched_segment_group_branches", "Cell._Cell__sectionise", "Cell.add_unbranched_segment_group",
-              "Cell.get_segment_adjacency_list"],
+        # the private sectioniser is `Cell.__sectionise` in the source (name mangling only changes the attribute name,
+        # not the `def`), the earlier entry `Cell._Cell__sectionise` matched nothing
+        NML: ["Cell.create_unbranched_segment_group_branches", "Cell.__sectionise", "Cell.add_unbranched_segment_group",
+              "Cell.add_segment_group", "Cell.get_segment_group", "Cell.get_segment_adjacency_list", "Cell.get_segment",
+              "Cell.get_actual_proximal", "Cell.reorder_segment_groups", "Cell.optimise_segment_groups"],
     },
     "C17": {
         "neuroml/utils.py": ["fix_external_morphs_biophys_in_cell"],
